@@ -90,6 +90,22 @@ def stimuli(tier, seed, ctx):
         g = _graph(rnd, kinds, edges)
         out.append({'g': g, 'init': [rnd.randint(0, 1) for _ in range(n)],
                     'seq': _rand_seq(rnd, n, rnd.randint(1, 4))})
+    # (iii) the FSM's own windows (Fsm.tla / FsmTrace.tla, shared with C03): an entry action may
+    # send ONE event to its own FSM (chained transition); an exit action - also the exit action
+    # of an intermediate state of a chained transition - and a second request may not
+    from . import c03
+    for _ in range(250 if tier == 'quick' else 6000):
+        nn = rnd.choice([2, 3, 3, 4])
+        cfg = c03._rand_cfg(rnd, nn, rnd.choice([1, 2, 3]), xprob=0.05)
+        for s_, ch in enumerate(cfg['chain']):
+            if ch['on'] and rnd.random() < 0.6:       # an intermediate state whose exit action sends
+                cfg['exit'][s_] = cfg['exit'][s_] or rnd.choice([1, 2, 3])
+                cfg['xchain'][s_] = True
+        seq = c03._rand_seq(rnd, cfg, rnd.randint(2, 10))
+        for ev_ in seq:
+            if rnd.random() < 0.5:
+                ev_['d'].update(chain=1, xc=1)
+        out.append({'family': 'fsmwin', 'cfg': cfg, 'seq': seq})
     return out
 
 
@@ -97,6 +113,11 @@ ETYPE = {'input': 'put', 'counter': 'inc', 'fsm': 'tgl', 'probe': 'fwdev', 'repe
 
 
 def execute(stim):
+    if stim.get('family') == 'fsmwin':
+        from . import c03
+        tr = c03.execute(stim)
+        tr['_spec'] = 'FsmTrace'
+        return tr
     import edzed
     g = stim['g']
     n = len(g['kind'])
@@ -291,9 +312,13 @@ def _cyclic_or_diamond(g):
 
 
 def nontrivial(stim, trace):
+    if stim.get('family') == 'fsmwin':
+        return any(c['on'] for c in stim['cfg']['chain']) or any(stim['cfg']['xchain'])
     return bool(trace['ev']) and _cyclic_or_diamond(stim['g'])
 
 
 def signature(stim, trace, why):
     e = why.get('event') or {}
+    if stim.get('family') == 'fsmwin':
+        return f"reject:fsmwin:ret={e.get('ret')}"
     return f"reject:exc={e.get('exc')}:bad={e.get('bad')}:locked={bool(e.get('locked'))}"
